@@ -40,7 +40,7 @@ def G(name, harness, entry=None, srcs=(), defs=(), arch=64, enforce=(), replace=
       obj_bits=None, ndebug=False, fast=False, neg_control=False, cfg_indep=False,
       no_shims=False, native_defs=(), stubs=(), expect_fail=(), dfcc=False,
       inline_loops=False, split=False, src_defs=(), spec_unwind=None, branch_hook=None,
-      native_cflags=(), strip=None, extra_units=()):
+      native_cflags=(), strip=None, extra_units=(), native_rewrite=False):
     """One obligation group.
     spec_unwind: unwinding bound for the loops of harness/spec functions (h_*, r_*, mon_*),
                 so that `unwind` can stay tight for the loops of the repository code
@@ -655,12 +655,18 @@ def native_build(g, wd, env):
     if g["fast"]:
         defs.append("-DSAFE_FAST")
     srcs = g["native_srcs"] if g["native_srcs"] is not None else g["srcs"]
+    if g.get("native_rewrite"):
+        # must-fire rewrite rules applied to scratch copies of repository sources for the native build as well
+        rw = apply_rewrites(g, wd)
+        for path in rw:
+            if path not in srcs:
+                srcs = list(srcs) + [path]
     lib = native_lib(g.get("_pid", "X"), g, env)
     base = ["gcc", "-g", "-O1", "-fsanitize=address,undefined", "-fno-sanitize=alignment", "-fno-sanitize-recover=undefined",
             "-fno-omit-frame-pointer", "-w"] + inc + defs
     objs = []
     units = [(os.path.join(VERIF, g["harness"]), []), (os.path.join(VERIF, "lib/native_rt.c"), [])] + \
-        [((os.path.join(VERIF, s[1:]) if s.startswith("@") else os.path.join(REPO, s)), list(g["native_cflags"]))
+        [((os.path.join(VERIF, s[1:]) if s.startswith("@") else rw.get(s, os.path.join(REPO, s))), list(g["native_cflags"]))
          for s in srcs if not s.endswith("core/util.c")] + \
         [(os.path.join(REPO, s), ["-D" + x for x in d]) for (s, d) in g["extra_units"]]
     for i, (f, extra) in enumerate(units):
@@ -734,6 +740,40 @@ def native_search(g, wd, env, n, seed):
                 inputs=inputs, wall=wall)
 
 
+def suite_run(g, wd, env):
+    """backend "suite": the repository's own test program built from /repo's current sources under ASan/UBSan
+    with the must-fire rewrite rules of the group applied to scratch copies (e.g. blob pages of one octet, so
+    that every state / stack blob is allocated at exactly the size the code asked for), then run once."""
+    rw = apply_rewrites(g, wd)
+    files = []
+    for top in ("src", "test"):
+        for root, _, names in os.walk(os.path.join(REPO, top)):
+            for nm in sorted(names):
+                if nm.endswith(".c") and not re.match(r"bash_f(32|64|avx2|avx512|neon|sse2)\.c$", nm):
+                    rel = os.path.relpath(os.path.join(root, nm), REPO)
+                    files.append(rw.get(rel, os.path.join(REPO, rel)))
+    if len(files) < 100:
+        raise Infra("suite: only %d source files found under %s" % (len(files), REPO))
+    lst = os.path.join(wd, "files.txt")
+    open(lst, "w").write("\n".join(files) + "\n")
+    flags = "-g -O1 -fsanitize=address,undefined -fno-sanitize=alignment,pointer-overflow -fno-omit-frame-pointer -w " \
+            "-I%s/include -I%s/src -I%s -I%s/src/crypto/bash %s" % (REPO, REPO, REPO, REPO, " ".join(g["native_cflags"]))
+    script = "cd %s && mkdir -p obj && cat files.txt | xargs -P 8 -I{} sh -c 'gcc %s -c {} -o obj/$(echo {} | tr / _).o' && " \
+             "gcc -fsanitize=address,undefined obj/*.o -o suite -lpthread" % (wd, flags)
+    rc, out, err, _, to = slot_sh(["bash", "-c", script], timeout=1200, env=env)
+    if rc != 0:
+        raise Infra("suite build failed: %s" % (err or out)[-2000:])
+    e = native_env(env)
+    rc, out, err, wall, to = sh([os.path.join(wd, "suite")], timeout=max(600, g["timeout"]), env=e, cwd=wd)
+    txt = out + err
+    if to:
+        raise Infra("suite run timed out")
+    bad = rc != 0 or re.search(r"Test: Err|ERROR: AddressSanitizer|runtime error:", txt)
+    return dict(cmd="suite (repository test program, ASan/UBSan, rewrites: %s)" % "; ".join(r[1] for r in g["rewrite"] if not isinstance(r, dict)),
+                rc=rc, out=txt[-6000:], found=bool(bad), inputs={}, wall=wall,
+                tests=len(re.findall(r"Test: OK", txt)))
+
+
 # ---------------------------------------------------------------------------------------
 
 def is_canary(r):
@@ -755,6 +795,22 @@ def run_group(pid, g, tier, seed, keep=False):
              discharged=0, failed=[], unknown=[], canaries=0, canaries_ok=0, infra=None,
              violations=[], note=g["note"], neg_control=g["neg_control"], samples=[])
     try:
+        if g["backend"] == "suite":
+            ns = suite_run(g, wd, env)
+            R["backend_used"] = "native-suite"
+            R["native_search"] = dict(cmd=ns["cmd"], found=ns["found"], wall=round(ns["wall"], 1))
+            R["native_runs"] = R["native_completed"] = ns["tests"]
+            R["checker_cmd"] = ns["cmd"]
+            if ns["found"]:
+                m = re.search(r"SUMMARY: (.*)|(\S+: runtime error: .*)|(\w+Test: Err)", ns["out"])
+                R["violations"].append(dict(
+                    group=g["name"], obligation=g["name"] + ".suite",
+                    description=(m.group(0) if m else "test program failed"), location="",
+                    backend="native-suite", inputs={}, native=ns, reproduced=True,
+                    verifier_output="repository test program under ASan/UBSan with exact-size blobs (stand-in, not a solver answer)"))
+            elif ns["tests"] == 0:
+                R["infra"] = "suite ran no test: " + ns["out"][-300:]
+            return R
         if g["backend"] == "native":
             ns = native_search(g, wd, env, g["search"], seed)
             R["backend_used"] = "native-search"
